@@ -579,9 +579,6 @@ def raw_calls_in_wrappers(ctx, world):
             continue
         if any(isinstance(p, ast.FunctionDef) for p in _parents(fnode)):
             continue
-        raws = [c for c in ast.walk(fnode) if isinstance(c, (ast.Call, ast.Subscript)) and _is_raw_np(world, m, c)]
-        if not raws:
-            continue
         # partial evaluation of the function with symbolic parameters
         sc = Scope()
         for p in fnode.args.posonlyargs + fnode.args.args:
@@ -591,6 +588,19 @@ def raw_calls_in_wrappers(ctx, world):
         if fnode.args.kwarg:
             sc.vars[fnode.args.kwarg.arg] = T("sym", name=fnode.args.kwarg.arg, role="param")
         res = ev.run(fnode.body, sc, m)
+        if res is None:
+            continue
+        from ..tutil import expand as _exp
+
+        def _raw(t):
+            if t.op == "call":
+                rf, _ = resolve_callee(ev, t)
+                return rf is not None and rf.kind == "ext" and rf.qual.startswith("numpy.")
+            return t.op == "sub" and t.obj.op == "ref" and t.obj.ref.kind == "ext" and t.obj.ref.qual.startswith("numpy.")
+
+        raws = [t for t in walk(_exp(ev, res, RETRACE)) if _raw(t)]
+        if not raws:
+            continue  # no raw numpy call reaches this function's result (helpers inlined)
         n += 1
         exposed = _exposed(ev, res, set(), 0)
         inst = fq
@@ -598,7 +608,7 @@ def raw_calls_in_wrappers(ctx, world):
             ctx.ob("A6.rawcall", inst, True, loc_of(m, fnode), sample=f"{len(raws)} raw call(s), all re-traced before return")
         else:
             ctx.fail("A6.rawcall", inst, f"{fq}|{norm_text(exposed.node)[:60] if exposed.node is not None else '?'}", loc_of(m, fnode), f"the result of the raw call `{norm_text(exposed.node)[:70] if exposed.node is not None else exposed}` is returned without re-tracing: traced elements inside it are lost (object array) or dropped", "the function called with a list containing traced scalars/arrays")
-    ctx.floor("A6.rawcall wrappers with raw calls", n, 3)
+    ctx.floor("A6.rawcall wrappers with raw calls", n, 2)
 
 
 def _parents(n):
